@@ -445,6 +445,8 @@ def _measure_serial_steps():
             n = [0, 0]
             held = []
             sites = {}
+            hot = set()
+            last = [None, False]
 
             def local(frame, event, arg):
                 if event == 'line':
@@ -455,6 +457,11 @@ def _measure_serial_steps():
                             held.append(n[1])
                         key = '%s:%d' % (frame.f_code.co_name, frame.f_lineno)
                         sites[key] = sites.get(key, 0) + 1
+                        # a line that mutates state, or the line reached right after one in the same function
+                        is_write = frame.f_lineno in sched.WRITE_LINES.get(frame.f_code, ())
+                        if is_write or (last[0] is frame.f_code and last[1]):
+                            hot.add(key)
+                        last[0], last[1] = frame.f_code, is_write
                 return local
 
             def glob(frame, event, arg):
@@ -469,7 +476,7 @@ def _measure_serial_steps():
                     ok = repr(e)
             finally:
                 sys.settrace(None)
-            out.append([n[0], ok, n[1], held, sites])
+            out.append([n[0], ok, n[1], held, sites, sorted(hot)])
         return out
     kind, res = core.in_fork(go, 120)
     if kind != 'ok':
@@ -481,7 +488,9 @@ def _measure_serial_steps():
     for i, sites in enumerate(SERIAL_SITES):
         # rare (cold-path, first-use) sites first; per site the first, last, second, ... occurrence
         cand = []
-        ordered = sorted(sites.items(), key=lambda kv: (kv[1], kv[0]))
+        hot = set(res[i][5])
+        # first the lines around a mutation of shared state (check-then-act windows), rare before frequent
+        ordered = sorted(sites.items(), key=lambda kv: (kv[0] not in hot, kv[1], kv[0]))
         for rnd in range(4):
             for key, cnt in ordered:
                 occs = [1, cnt, 2, max(1, cnt // 2)]
@@ -516,7 +525,7 @@ def _pick_item(rng):
 
 def generate(rng, idx, tier):
     kind = idx % 8
-    if kind >= 4 and PAIRS and rng.random() < 0.85:
+    if kind >= 4 and PAIRS:
         # stratified sweep (seed-indexed, not drawn): pair j of a fixed list, thread A parked at its
         # k-th shared-state yield point while B runs to completion; k sweeps 1..K_A over successive j
         j = (idx // 8) * 4 + (kind - 4)
@@ -526,7 +535,7 @@ def generate(rng, idx, tier):
             a, b = b, a
         ka = max(1, SERIAL_SHARED[a])
         r2 = rot // 2
-        if SWEEP.get(a) and rng.random() < 0.8:
+        if SWEEP.get(a) and j % 5 != 4:
             # site-stratified: park thread A at the occ-th time it reaches one shared-state source line
             site = SWEEP[a][r2 % len(SWEEP[a])]
             est = SERIAL_STEPS[a] + SERIAL_STEPS[b]
@@ -566,18 +575,18 @@ def generate(rng, idx, tier):
     est = sum(SERIAL_STEPS[i] for th in threads for i in th)
     sp = dict(seed=rng.randrange(1 << 30), opcode=rng.random() < 0.5,
               max_steps=est * 60 + 20000, est_steps=est)
-    if kind in (0, 1):
+    # (kinds 4-7 are the sweeps above) random workloads: uniform / shared-site-biased / PCT / random single pre-emption
+    sub = (idx // 8) % 3
+    if kind == 0:
         sp.update(policy='uniform', p=rng.choice([0.001, 0.003, 0.01, 0.03, 0.1, 0.3]))
-    elif kind in (2, 3):
+    elif kind == 1:
         sp.update(policy='biased', p=rng.choice([0.0, 0.001, 0.01]),
                   p_shared=rng.choice([0.1, 0.3, 0.6]))
-    elif kind in (4, 5, 6):
+    elif kind == 2 or sub:
         dmax = 3 if tier == 'quick' else 8
         sp.update(policy='pct', d=rng.randrange(1, dmax + 1))
     else:
-        # stratified single pre-emption: thread A parked at its k-th shared-state yield point
-        sp.update(policy='strat', strat_tid=rng.randrange(nthreads),
-                  strat_k=1 + (idx // 8) % 60 if rng.random() < 0.7 else rng.randrange(1, 400))
+        sp.update(policy='strat', strat_tid=rng.randrange(nthreads), strat_k=rng.randrange(1, 400))
     return dict(threads=threads, sched=sp)
 
 
